@@ -918,12 +918,14 @@ class VSocket:
             return True
         if self.state == "connected":
             return bool(self.rx) or self.rx_eof or self.rx_err is not None
+        if self.state == "new":
+            return True            # a stream socket that was never connected polls as hung up: recv() gives ENOTCONN
         return False
 
     def writable(self):
         if self.closed:
             return False
-        if self.state == "failed":
+        if self.state in ("failed", "new"):
             return True
         if self.state == "connected":
             return not self.tx_blocked
@@ -1123,6 +1125,20 @@ def _sim_select(rlist, wlist, xlist, timeout=None):
     def any_ready():
         r, w = ready()
         return bool(r or w)
+    # a thread whose select() keeps returning at once does not starve the others on a real machine (the scheduler
+    # preempts it): after a run of immediate returns the simulated thread lets another runnable thread go first
+    me = k.cur()
+    spins = k.__dict__.setdefault("_spin_selects", {})
+    if me is not None and any_ready():
+        spins[me] = spins.get(me, 0) + 1
+        if spins[me] >= 25:
+            spins[me] = 0
+            others = [t for t in k._runnable() if t is not me]
+            if others:
+                k._force_next = others[0]
+                k.yield_point()
+    elif me is not None:
+        spins[me] = 0
     k.block(any_ready, timeout)
     r, w = ready()
     return r, w, []
